@@ -71,6 +71,13 @@ class Holder(HasTraits):
     lnd1 = List(Int, minlen=1, maxlen=3)
 
 
+class FalsyHolder(Holder):
+    """An owner whose truth value is False (a registry-like model with __len__ == 0): nothing may depend on `if owner:`."""
+
+    def __len__(self):
+        return 0
+
+
 def dec(x):
     if isinstance(x, list):
         return [dec(i) for i in x]
@@ -281,6 +288,7 @@ def strategy(tier):
         "lbb": st.sampled_from([[], [[0], [1, 2]], [[0, 1], [], [2]]]),
         "ll": st.sampled_from([[], [[1], [2, 3]]]),
         "dl": st.sampled_from([[], [[1, [1]], [2, []]]]),
+        "falsy_owner": st.sampled_from([False, False, True]),
         "ops": st.lists(op_strategy(), min_size=1, max_size=20),
     })
 
@@ -506,7 +514,9 @@ def unhashable(x):
 
 
 def run(case, ctx):
-    o = Holder()
+    o = FalsyHolder() if case.get("falsy_owner") else Holder()
+    if case.get("falsy_owner"):
+        ctx.label("owner-object-is-falsy")
     o.lb = list(case["lb"])
     o.lbb = copy.deepcopy(case["lbb"])
     o.ll = copy.deepcopy(case["ll"])
